@@ -71,6 +71,10 @@ type Shim struct {
 	OnIter func(idx int) Decision
 	// OnGet decides the fate of a Get call
 	OnGet func(idx int, key []byte) Decision
+	// OnTSO decides the fate of a GetTimestampOracle call
+	OnTSO func(idx int) Decision
+	// OnNext decides the fate of the pos-th Next (0-based) of the iterIdx-th iterator opened through this shim
+	OnNext func(iterIdx, pos int) Decision
 	// Partitions overrides GetPartitions if set
 	Partitions func(start, end []byte) []storage.Partition
 	// TTL overrides SupportTTL if non-nil
@@ -88,6 +92,7 @@ type Shim struct {
 	nDelete  int
 	nIter    int
 	nGet     int
+	nTSO     int
 	Commits  []*CommitInfo // successful or uncertain-applied commits, in order
 	Attempts []*CommitInfo // every commit attempt
 	DelLog   [][]byte
@@ -120,6 +125,13 @@ func (s *Shim) clientOf(ctx context.Context) int {
 
 // GetTimestampOracle implements storage.KvStorage
 func (s *Shim) GetTimestampOracle(ctx context.Context) (uint64, error) {
+	s.mu.Lock()
+	idx := s.nTSO
+	s.nTSO++
+	s.mu.Unlock()
+	if s.OnTSO != nil && s.OnTSO(idx) != Pass {
+		return 0, ErrInjected
+	}
 	return s.Inner.GetTimestampOracle(ctx)
 }
 
@@ -150,6 +162,19 @@ func (s *Shim) Get(ctx context.Context, key []byte) ([]byte, error) {
 
 type shimIter struct {
 	storage.Iter
+	s   *Shim
+	idx int
+	pos int
+}
+
+// Next implements storage.Iter
+func (it *shimIter) Next(ctx context.Context) error {
+	pos := it.pos
+	it.pos++
+	if it.s != nil && it.s.OnNext != nil && it.s.OnNext(it.idx, pos) != Pass {
+		return ErrInjected
+	}
+	return it.Iter.Next(ctx)
 }
 
 // Iter implements storage.KvStorage
@@ -166,7 +191,7 @@ func (s *Shim) Iter(ctx context.Context, start []byte, end []byte, timestamp uin
 	if err != nil {
 		return nil, err
 	}
-	return &shimIter{Iter: it}, nil
+	return &shimIter{Iter: it, s: s, idx: idx}, nil
 }
 
 func unwrapIter(it storage.Iter) storage.Iter {
